@@ -17,7 +17,7 @@ LEVEL_NOTE = ("Trusted: Lean kernel, axioms propext/Classical.choice/Quot.sound;
               "LeafSound hypothesis for CPython constructors; inputs are the Val fragment (arbitrary objects enter as an attribute-less opaque).")
 TECHNIQUE = "Lean 4 soundness theorem over the model of all unmarshallers; correspondence on junk/corrupted inputs; independent conformance oracle"
 DESIGN_REF = "DESIGN.md §5 C03"
-MODULES = ["TypelibModel.Props.Dispatch"]
+MODULES = ["TypelibModel.Props.C03", "TypelibModel.Props.Dispatch"]
 TABLES = True
 RULE = ("programs as in C01 (all unions allowed); inputs: junk stream (primitives, text in 5 carriers, JSON / Python-literal text, "
         "wrong-shape containers, unrelated instances, temporals) and corrupted wire forms of valid values (field dropped/renamed/"
